@@ -608,6 +608,83 @@ mkspecs(struct spec_s *sp, int max, const char *nlist)
 	return k;
 }
 
+/* family long: DTSTART in June of a year 1930..1961, followed to 2099 (>= 138 occurrences, so the 64-slot cache is
+ * refilled at least twice, at a phase that moves with the DTSTART year).  Every source date from the year after
+ * DTSTART on must have exactly one of its acceptable images in the stream, and nothing else may occur between the
+ * first and the last judged image. */
+static void
+shift_long(const struct spec_s *sp, int m, int d, int y0)
+{
+	static long obs[400];
+	static struct src_s src[200];
+	char lines[256], sig[200], b1[48], b2[32], b3[32];
+	bool ended;
+	int no, ns = 0;
+	long lo = 0, hi = 0;
+	bool any = false, missed = false;
+
+	for (int y = y0 + 1; y <= 2097; y++) {
+		src[ns].valid = d <= cvl_ndim(y, m);
+		if (src[ns].valid) {
+			src[ns].z = cvl_days(y, m, d);
+			src[ns].nimg = images(src[ns].img, sp, src[ns].z);
+		}
+		ns++;
+	}
+	snprintf(lines, sizeof(lines), "DTSTART;VALUE=DATE:%04d0601\nRRULE:FREQ=YEARLY;BYMONTH=%d;BYMONTHDAY=%d;SHIFT=%s\n", y0, m, d, sp->txt);
+	no = run_stream(obs, 400, lines, cvl_days(2099, 12, 31), &ended);
+	vd_sh->evals++;
+	if (no < 0) {
+		snprintf(sig, sizeof(sig), "long-no-stream/%s/%s", fgroup(sp), nclass(sp));
+		vd_viol(sig, "BYMONTH=%d;BYMONTHDAY=%d;SHIFT=%s from %d-06-01: the parser gave no recurring task", m, d, sp->txt, y0);
+		return;
+	}
+	for (int k = 0; k < ns; k++) {
+		int hits = 0, idx = -1;
+		if (!src[k].valid) continue;
+		for (int j = 0; j < no; j++) {
+			if (img_has(&src[k], obs[j])) hits++, idx = j;
+		}
+		if (!any) lo = hi = src[k].img[0], any = true;
+		for (int q = 0; q < src[k].nimg; q++) {
+			lo = src[k].img[q] < lo ? src[k].img[q] : lo;
+			hi = src[k].img[q] > hi ? src[k].img[q] : hi;
+		}
+		if (hits != 1 && !missed) {
+			missed = true;
+			/* where in the stream the hole is: refill boundaries sit at multiples of 63 */
+			int pos = 0;
+			for (int j = 0; j < no; j++) pos += obs[j] < src[k].img[0];
+			snprintf(sig, sizeof(sig), "long-%s/%s/%s/%s", hits ? "twice" : "missing", fgroup(sp), nclass(sp),
+				 pos < 2 ? "at-start" : (pos % 63 <= 1 || pos % 63 >= 62) ? "at-refill" : "mid-cache");
+			vd_viol(sig, "BYMONTH=%d;BYMONTHDAY=%d;SHIFT=%s from %d-06-01: %s must become %s%s%s, %s (it would be occurrence %d)", m, d, sp->txt, y0,
+				zstr(b1, sizeof(b1), src[k].z), zstr(b2, sizeof(b2), src[k].img[0]),
+				src[k].nimg > 1 ? " or " : "", src[k].nimg > 1 ? zstr(b3, sizeof(b3), src[k].img[1]) : "",
+				hits ? "both occur" : "which does not occur", pos);
+			(void)idx;
+		}
+	}
+	for (int j = 0; any && j < no && !missed; j++) {
+		bool known = false;
+		if (obs[j] < lo || obs[j] > hi) continue;
+		for (int k = 0; k < ns && !known; k++) known = src[k].valid && img_has(&src[k], obs[j]);
+		if (!known) {
+			snprintf(sig, sizeof(sig), "long-extra/%s/%s", fgroup(sp), nclass(sp));
+			vd_viol(sig, "BYMONTH=%d;BYMONTHDAY=%d;SHIFT=%s from %d-06-01: %s occurs but is the image of no year's %02d-%02d", m, d, sp->txt, y0,
+				zstr(b1, sizeof(b1), obs[j]), m, d);
+			break;
+		}
+	}
+	for (int j = 1; j < no; j++) {
+		if (obs[j] <= obs[j - 1]) {
+			snprintf(sig, sizeof(sig), "long-order/%s/%s", fgroup(sp), nclass(sp));
+			vd_viol(sig, "BYMONTH=%d;BYMONTHDAY=%d;SHIFT=%s from %d-06-01: occurrence %d (%s) is not after occurrence %d", m, d, sp->txt, y0, j,
+				zstr(b1, sizeof(b1), obs[j]), j - 1);
+			break;
+		}
+	}
+}
+
 static void
 enumerate(void)
 {
@@ -650,6 +727,28 @@ enumerate(void)
 				if (sp[k].n != 0 || sp[k].form != F_DAY) {
 					NONTRIVIAL();
 				}
+			}
+		}
+	} else if (!strcmp(mode, "long")) {
+		static struct spec_s sp[3000];
+		const int nsp = mkspecs(sp, 3000, vd_opt("nlist", "quick"));
+		static const int md[][2] = {{12, 31}, {12, 30}, {1, 1}, {1, 2}, {2, 28}, {2, 29}, {6, 15}, {3, 1}};
+		const int ymax = (int)vd_opt_l("ymax", 1945);
+
+		for (int k = 0; k < nsp; k++) {
+			const int a = sp[k].n < 0 ? -sp[k].n : sp[k].n;
+			/* shifts that stay well inside a year: the two-year-ends finding is judged elsewhere */
+			if (a > 40) continue;
+			for (size_t q = 0; q < sizeof(md) / sizeof(*md); q++) {
+				if (!vd_next()) continue;
+				vd_desc("shift long RRULE:FREQ=YEARLY;BYMONTH=%d;BYMONTHDAY=%d;SHIFT=%s, DTSTART June 1 of 1930..%d, followed to 2099", md[q][0], md[q][1], sp[k].txt, ymax);
+				vd_shape("shift-long/%s/%s", fgroup(&sp[k]), nclass(&sp[k]));
+				for (int y0 = 1930; y0 <= ymax; y0++) {
+					vd_beat();
+					shift_long(&sp[k], md[q][0], md[q][1], y0);
+				}
+				NONTRIVIAL();
+				vd_sample("shift long: BYMONTH=%d;BYMONTHDAY=%d;SHIFT=%s from June 1 of each of 1930..%d to 2099", md[q][0], md[q][1], sp[k].txt, ymax);
 			}
 		}
 	} else {
